@@ -1,0 +1,73 @@
+//go:build verif
+
+package iavl
+
+import (
+	"bytes"
+
+	"github.com/cosmos/iavl/cache"
+	"github.com/cosmos/iavl/fastnode"
+)
+
+// This file is only compiled with the build tag "verif". It gives the external verification
+// harness a read-only view of the two caches of the node database.
+
+// VerifCachedNode is one entry of the node cache: the key it is cached under and the bytes
+// SaveNode would write for it (legacy nodes are listed without bytes).
+type VerifCachedNode struct {
+	Key    []byte
+	Legacy bool
+	Bytes  []byte
+	Err    string
+}
+
+// VerifNodeCache lists the node cache, most recently used first.
+func (tree *MutableTree) VerifNodeCache() []VerifCachedNode {
+	ndb := tree.ndb
+	ndb.mtx.Lock()
+	defer ndb.mtx.Unlock()
+	var out []VerifCachedNode
+	for _, e := range cache.VerifEntries(ndb.nodeCache) {
+		node, ok := e.(*Node)
+		if !ok || node == nil {
+			continue
+		}
+		c := VerifCachedNode{Key: append([]byte(nil), node.GetKey()...), Legacy: node.isLegacy}
+		if !node.isLegacy {
+			var buf bytes.Buffer
+			if err := node.writeBytes(&buf); err != nil {
+				c.Err = err.Error()
+			}
+			c.Bytes = buf.Bytes()
+		}
+		out = append(out, c)
+	}
+	return out
+}
+
+// VerifCachedFastNode is one entry of the fast node cache.
+type VerifCachedFastNode struct {
+	Key     []byte
+	Value   []byte
+	Version int64
+}
+
+// VerifFastNodeCache lists the fast node cache, most recently used first.
+func (tree *MutableTree) VerifFastNodeCache() []VerifCachedFastNode {
+	ndb := tree.ndb
+	ndb.mtx.Lock()
+	defer ndb.mtx.Unlock()
+	var out []VerifCachedFastNode
+	for _, e := range cache.VerifEntries(ndb.fastNodeCache) {
+		fn, ok := e.(*fastnode.Node)
+		if !ok || fn == nil {
+			continue
+		}
+		out = append(out, VerifCachedFastNode{
+			Key:     append([]byte(nil), fn.GetKey()...),
+			Value:   append([]byte(nil), fn.GetValue()...),
+			Version: fn.GetVersionLastUpdatedAt(),
+		})
+	}
+	return out
+}
